@@ -56,9 +56,10 @@ PROPS = {
     "C08": {
         "streams": {"yarg": {"quick": 20000, "thorough": 500000}},
         "trusted": [],
-        "modelled": ["RFC 6020 does not fix the order of whitespace trimming and escape substitution: texts with \\n/\\t escapes in multi-line strings, and undefined escapes, are compared implementation-vs-model only"],
+        "modelled": ["RFC 6020 does not fix the order of whitespace trimming and escape substitution: texts with \\n/\\t escapes in multi-line strings are compared implementation-vs-model only",
+                     "the pair \\r, which the code substitutes by a carriage return (deliberately: its own test expects it) and RFC 6020 does not define, is compared implementation-vs-model only; every other backslash pair is kept as it stands by code, model and specification"],
         "rule": "(value, quoting, layout) triples: values over an alphabet with quotes, backslashes, //, /*, +, ;{}, tabs, CR, LF, multi-byte runes; 1-3 pieces joined by '+'; unquoted / single / "
-                "double quoting; indentation by blanks and tabs to the exact quote column, blank lines, CRLF, comments between tokens; compared: Node.Argument().String() with the model and with Spec.decodeArg",
+                "double quoting; indentation by blanks and tabs to the exact quote column, blank lines, CRLF, comments between tokens; 12 % of the double-quoted pieces written directly as source text over an alphabet of defined and undefined backslash pairs; compared: Node.Argument().String() with the model and with Spec.decodeArg",
     },
     "C09": {
         "streams": {"ytriples": {"quick": 1, "thorough": 1}, "yorder": {"quick": 300, "thorough": 20000}, "yargs": {"quick": 3000, "thorough": 200000}},
